@@ -52,6 +52,7 @@ Section Packets.
 Variable e : env.
 Variables req_sid rsp_sid : nat.
 Variable tup_version : Z.
+Variable oneway : Z.
 
 (* unpack of a packed body is the struct decoder on the body: no panic at the slice, nothing lost or added *)
 Theorem unpack_frame sid body : unpack e sid (frame body) = decode e sid body.
@@ -114,17 +115,23 @@ Proof.
   split; [rewrite frame_header by lia; now rewrite frame_length|].
   rewrite <- (frame_length (encode e sid v)). apply parse_frame; lia.
 Qed.
-(* InvokeTimeout: below four bytes the slice panic, otherwise never that panic; a reply, when the request decodes,
-   is a packet that ParsePackage accepts at exactly its length *)
+(* InvokeTimeout: below four bytes the slice panic; a one-way request that decodes gets no reply at all; a two-way
+   request that decodes gets the timeout reply, a packet that ParsePackage accepts at exactly its length *)
 Theorem invoke_timeout_short pkg : (length pkg < 4)%nat ->
-  invoke_timeout e req_sid rsp_sid tup_version pkg = DPanic site_slice_bounds.
+  invoke_timeout e req_sid rsp_sid tup_version oneway pkg = DPanic site_slice_bounds.
 Proof. intros H. unfold invoke_timeout, request_unpack, unpack. destruct (length pkg <? 4)%nat eqn:E; [reflexivity|lia]. Qed.
-Theorem invoke_timeout_reply max pkg reply r more : invoke_timeout e req_sid rsp_sid tup_version pkg = DOk reply r ->
-  N.of_nat (length reply) < 4294967296 -> N.of_nat (length reply) <= max ->
-  hdr (reply ++ more) = Some (N.of_nat (length reply)) /\ tars_request max (reply ++ more) = Full (length reply).
+Theorem invoke_timeout_oneway pkg req r : request_unpack e req_sid pkg = DOk req r ->
+  (req_packet_type e req_sid req =? oneway)%Z = true ->
+  invoke_timeout e req_sid rsp_sid tup_version oneway pkg = DOk [] r.
+Proof. intros H Ho. unfold invoke_timeout. now rewrite H, Ho. Qed.
+Theorem invoke_timeout_twoway max pkg req r more : request_unpack e req_sid pkg = DOk req r ->
+  (req_packet_type e req_sid req =? oneway)%Z = false ->
+  let reply := rsp2byte e req_sid rsp_sid tup_version (timeout_rsp e req_sid rsp_sid req) in
+  invoke_timeout e req_sid rsp_sid tup_version oneway pkg = DOk reply r /\
+  (N.of_nat (length reply) < 4294967296 -> N.of_nat (length reply) <= max ->
+   hdr (reply ++ more) = Some (N.of_nat (length reply)) /\ tars_request max (reply ++ more) = Full (length reply)).
 Proof.
-  unfold invoke_timeout. destruct (request_unpack e req_sid pkg) as [req r0| | | |]; try discriminate.
-  intros H; inversion H; subst. apply rsp2byte_parses.
+  intros H Ho. cbv zeta. split; [unfold invoke_timeout; now rewrite H, Ho|]. apply rsp2byte_parses.
 Qed.
 End Packets.
 
@@ -149,8 +156,14 @@ Example rsp2byte_tup_ex :
   request_unpack env0 sid_requestf_RequestPacket (rsp2byte env0 sid_requestf_RequestPacket sid_requestf_ResponsePacket c_TUPVERSION (ex_rsp c_TUPVERSION))
   = DOk (VStruct [VInt c_TUPVERSION; VInt 0; VInt 0; VInt 7; VStr []; VStr []; VBytes [1; 2; 255]; VInt 0; VMap []; VMap [(VStr [107], VStr [118])]]) [].
 Proof. vm_compute. reflexivity. Qed.
+Example invoke_timeout_oneway_ex :
+  invoke_timeout env0 sid_requestf_RequestPacket sid_requestf_ResponsePacket c_TUPVERSION c_TARSONEWAY
+    (request_pack env0 sid_requestf_RequestPacket
+       (VStruct [VInt 1; VInt c_TARSONEWAY; VInt 0; VInt 77; VStr [111]; VStr [102]; VBytes [5]; VInt 0; VMap []; VMap []]))
+  = DOk [] [].
+Proof. vm_compute. reflexivity. Qed.
 Example invoke_timeout_ex :
-  invoke_timeout env0 sid_requestf_RequestPacket sid_requestf_ResponsePacket c_TUPVERSION
+  invoke_timeout env0 sid_requestf_RequestPacket sid_requestf_ResponsePacket c_TUPVERSION c_TARSONEWAY
     (request_pack env0 sid_requestf_RequestPacket
        (VStruct [VInt 1; VInt 0; VInt 0; VInt 77; VStr [111]; VStr [102]; VBytes [5]; VInt 0; VMap []; VMap []]))
   = DOk (rsp2byte env0 sid_requestf_RequestPacket sid_requestf_ResponsePacket c_TUPVERSION
